@@ -5,7 +5,7 @@ from framework import coq_bs, coq_z, coq_list, coq_opt
 ID = 'C02'
 COQ_IMPORTS = ['G_gff', 'C02_Model']
 GENERATORS = ['gen_gff']
-RULE = ('eight streams: (xsvw) FeatureLists -> TSV/CSV text -> records for any list of column names (subsets, repetitions, defect, foreign metadata columns), keys as list / tuple / one string with arbitrary white space, fourteen separators, ftype naming a column or a literal, via str / file / detection: the written text is compared byte for byte with the model, the records or the KeyError with the model and the oracle; (xsvr) tables written by other programs (columns by name anywhere, contradicting len, negative coordinates, blank lines, empty ranges, unknown strands, missing columns); (seqgff) BioBaskets whose sequences carry features (some without seqid, some naming another or no sequence) '
+RULE = ('nine streams: (disp) write_fts / read_fts with fmt in any spelling or taken from the extension (right, wrong-case and unknown extensions, unknown format names, fmt against extension), via string and file, meta._fmt observed; (xsvw) FeatureLists -> TSV/CSV text -> records for any list of column names (subsets, repetitions, defect, foreign metadata columns), keys as list / tuple / one string with arbitrary white space, fourteen separators, ftype naming a column or a literal, via str / file / detection: the written text is compared byte for byte with the model, the records or the KeyError with the model and the oracle; (xsvr) tables written by other programs (columns by name anywhere, contradicting len, negative coordinates, blank lines, empty ranges, unknown strands, missing columns); (seqgff) BioBaskets whose sequences carry features (some without seqid, some naming another or no sequence) '
         'through write(fmt=gff) / read(fmt=gff or detected); TSV/CSV selections with extra metadata columns named like MMseqs2/BLAST '
         'columns, read back with fmt= and with auto-detection; (hist) histories on the same live FeatureLists / texts: repeated GFF cycles and TSV/CSV writes with different '
         'column selections in any order, in-place edits (aliases, _gff entries, locations) in between, mutation of every returned '
@@ -25,7 +25,7 @@ TRUSTED = ['urllib.parse.quote/unquote (modelled on ASCII, compared on every cas
            'CPython float()/repr() (scores are kept as decimal literals; domain = literals that repr(float()) reproduces)',
            'CPython str.split/strip/int(), dict insertion order, sorted() stability (modelled, compared on every case)',
            'modelled: read_fts_gff (gff.py:40-103), write_fts_gff (gff.py:118-164), LocationTuple.__new__ (fts.py:163-189), '
-           'LocationTuple.range, FeatureList.tolists/frompandas (fts.py:423-455, 573-603); read_fts/write_fts dispatch is exercised, not modelled']
+           'LocationTuple.range, FeatureList.tolists/topandas/frompandas (fts.py:423-455, 573-629), xsv.py:82-96, read_fts/write_fts/detect_ext name resolution (main.py:104-121, 364-394, 444-478)']
 ASSUMPTIONS = ['Python str restricted to ASCII (code points < 128) in every field; raw text without carriage returns',
                'attribute keys non-empty, not starting with "_", not a public method name of Attr (open finding F20), not one of '
                'seqid/source/score/phase/type unless they hold the column value',
@@ -34,7 +34,8 @@ ASSUMPTIONS = ['Python str restricted to ASCII (code points < 128) in every fiel
                'no location-level seqid/type/ID, and neighbouring features do not share (ID, type, seqid)',
                'score literals of the form [-]d+.d+ with <= 15 digits and no redundant zeros (so that repr(float(tok)) == tok)']
 
-MODELLED_FUNCS = {'sugar/_io/gff.py': ['read_fts_gff', 'write_fts_gff', 'read_gff', 'write_gff'],
+MODELLED_FUNCS = {'sugar/_io/main.py': ['read_fts', 'write_fts', 'detect_ext'],
+                  'sugar/_io/gff.py': ['read_fts_gff', 'write_fts_gff', 'read_gff', 'write_gff'],
                   'sugar/core/fts.py': ['LocationTuple.__new__', 'LocationTuple.range', 'Location.__init__', 'Feature.__init__',
                                         'FeatureList.tolists', 'FeatureList.topandas', 'FeatureList.frompandas'],
                   'sugar/_io/tab/xsv.py': ['_read_fts_xsv', '_write_fts_xsv', 'read_fts_tsv', 'read_fts_csv', 'write_fts_tsv', 'write_fts_csv']}
@@ -221,8 +222,13 @@ def impl(case):
         o0 = obs_fts(x)
         w = x.tofmtstr('gff', header=case['header']) if case.get('header') is not None else x.tofmtstr('gff')
         assert w == x.tofmtstr('gff', **({'header': case['header']} if case.get('header') is not None else {})) or _invented_ids(o0, w)
-        mp = _invented_ids(o0, w)
-        return [o0, [c.rstrip('\n') for c in comments], _subst(w, mp) if mp else w]
+        v3 = '##gff-version 3\n'
+        mp = _invented_ids(o0, v3 + w[len(v3 + (case.get('header') or '')):])
+        try:
+            back = obs_fts(read_fts(io.StringIO(w), fmt='gff'))      # header included: a header that is no comment is data
+        except ValueError:
+            back = {'e': 'ValueError'}
+        return [o0, [c.rstrip('\n') for c in comments], _subst(w, mp) if mp else w, _subst(back, mp) if mp and isinstance(back, list) else back]
     if k == 'xsv':
         return _xsv(build_fts(case['fts']), case.get('allkeys') or case['keys'], case['_sep'], case['_fmt'], case.get('_keystr'),
                     case.get('ftype'), case.get('_auto'))
@@ -401,6 +407,113 @@ def _xsv_read(text, sepname, fmt, ft):
     return _read_records(text, fmt, kw)
 
 
+def impl_disp(case):
+    """write_fts / read_fts dispatch: fmt in any spelling or taken from the extension of the file name; meta._fmt after reading"""
+    from sugar import read_fts
+    fts = build_fts(case['fts'])
+    target = (case['fmt'] if case['fmt'] is not None else case['ext']).lower()
+    wkw = {}
+    if target in ('tsv', 'csv'):
+        wkw['keys'] = list(case['names'])
+        if case['_sep'] is not None:
+            wkw['sep'] = SEPS[case['_sep']]
+    if case['fmt'] is None or case.get('_wfile'):
+        d = tempfile.mkdtemp(prefix='C02-', dir='/tmp')
+        fn = os.path.join(d, 'a.b.' + case['ext'] if case['ext'] else 'noext')
+        try:
+            if case['fmt'] is None:
+                fts.write(fn, **wkw)                      # format from the extension
+            else:
+                fts.write(fn, case['fmt'], **wkw)         # fmt wins over the extension
+            with open(fn, newline='') as f:
+                text = f.read()
+        finally:
+            import shutil
+            shutil.rmtree(d, ignore_errors=True)
+    else:
+        text = fts.tofmtstr(case['fmt'], **wkw)
+    rkw = {}
+    if case['rfmt'].lower() in ('tsv', 'csv') and case['_sep'] is not None:
+        rkw['sep'] = SEPS[case['_sep']]
+    try:
+        back = read_fts(io.StringIO(text), case['rfmt'], **rkw)
+    except (KeyError, ValueError) as e:
+        n = type(e).__name__
+        return [text, {'e': n if n in ('KeyError', 'ValueError', 'EmptyDataError') else 'ValueError'}]
+    fm = sorted(set(ft.meta.get('_fmt') for ft in back))
+    assert len(fm) <= 1, 'features of one read with different _fmt: %r' % (fm,)
+    if case['rfmt'].lower() == 'gff':
+        return [text, [fm[0] if fm else None, obs_fts(back)]]
+    return [text, [fm[0] if fm else None, [_obs_rec(ft) for ft in back]]]
+
+
+def spec_disp(case, got):
+    """fmt is case-insensitive, the extension is not; an unknown name is a KeyError, an unknown extension an OSError; what is read
+    carries the lower-case format name in meta._fmt and is what the format's own round trip gives"""
+    fmt, ext, rfmt = case['fmt'], case['ext'], case['rfmt']
+    if fmt is not None:
+        f = fmt.lower() if fmt.lower() in ('gff', 'tsv', 'csv') else None
+        werr = 'KeyError'
+    else:
+        f = ext if ext in ('gff', 'tsv', 'csv') else None
+        werr = 'OSError'
+    if f is None:
+        return None if got == {'e': werr} else 'expected %s for fmt=%r, extension %r, got %r' % (werr, fmt, ext, got)
+    if isinstance(got, dict):
+        return 'raised %s on an input of the domain' % got['e']
+    text, rd = got
+    sepname = case['_sep'] if case['_sep'] is not None else {'tsv': 'tab', 'csv': 'comma'}.get(f)
+    if f == 'gff':
+        if not text.startswith('##gff-version 3\n') or len(text.split('\n')) != 2 + sum(len(x['locs']) for x in case['fts']):
+            return 'not the GFF text of the list'
+    rf = rfmt.lower()
+    if rf not in ('gff', 'tsv', 'csv'):
+        return None if rd == {'e': 'KeyError'} else 'expected KeyError for reading with fmt=%r' % rfmt
+    if rf != f and not (f != 'gff' and rf != 'gff' and case['_sep'] is not None):
+        return None
+    if f == 'gff':
+        if isinstance(rd, dict) or rd[0] != 'gff':
+            return 'meta._fmt %r after reading with fmt=%r' % (rd, rfmt)
+        want = [sorted(expected_order([l[:3] for l in x['locs']])) for x in case['fts']]
+        have = [sorted(l[:3] for l in o[2]) for o in rd[1]]
+        return None if want == have else 'locations %r read back as %r' % (want, have)
+    sub = {'_k': 'xsvw', 'names': case['names'], 'keystr': None, '_sep': sepname, 'fts': case['fts'], 'ft': None}
+    if isinstance(rd, dict):
+        return spec_xsvw(sub, [text, rd])
+    if rd[0] != rf:
+        return 'meta._fmt %r after reading with fmt=%r' % (rd[0], rfmt)
+    return spec_xsvw(sub, [text, rd[1]])
+
+
+def gen_disp(rng):
+    base = gen_xsvw(rng)
+    fts = base['fts']
+    for i, f in enumerate(fts):
+        f.pop('_ctor', None)
+        if len(f['locs']) > 1 and not any(k == 'id' for k, _ in f['meta']):
+            f['meta'].append(['id', [0, 'm%d' % i]])
+        if not any(k == 'type' for k, _ in f['meta']):
+            f['meta'].append(['type', [0, rng.choice(TYPES)]])
+    def spell(name):
+        r = rng.random()
+        return name if r < 0.35 else name.upper() if r < 0.55 else name.capitalize() if r < 0.7 else ''.join(ch.upper() if rng.random() < 0.5 else ch for ch in name)
+    f = rng.choice(['gff', 'tsv', 'csv'])
+    c = {'_k': 'disp', 'fmt': None, 'ext': f, 'rfmt': spell(f), '_sep': None, 'names': base['names'], 'fts': fts, '_wfile': rng.random() < 0.3}
+    r = rng.random()
+    if r < 0.5:
+        c['fmt'] = spell(f)
+        c['ext'] = rng.choice(['gff', 'tsv', 'csv', 'txt', '', 'dat'])         # fmt wins over the extension
+    elif r < 0.62:
+        c['ext'] = rng.choice([f.upper(), f.capitalize(), 'gff3', 'txt', '', f + 'x', 'tab', 'gtf', 'gb', 'xsv'])   # extensions are compared as they are
+    if rng.random() < 0.06:
+        c['fmt'] = rng.choice(['xyz', '', 'gff3', 'g f f', 'tsv ', 'GFF3'])
+    if rng.random() < 0.06:
+        c['rfmt'] = rng.choice(['xyz', 'gff3', 'tsv ', spell(rng.choice(['gff', 'tsv', 'csv']))])
+    if f != 'gff' and rng.random() < 0.3:
+        c['_sep'] = rng.choice(list(SEPS))
+    return c
+
+
 # ---- histories (state independence): several calls on the same live objects / texts, edits in between; the model is pure, so
 # ---- every step is compared with the model applied to the CURRENT abstract value
 
@@ -567,6 +680,10 @@ def _model_term(case):
         ka = '(KStr %s)' % coq_bs(case['keystr']) if case.get('keystr') is not None else '(KList %s)' % coq_list([coq_bs(n) for n in case['names']])
         return 'out (run_C02_xsvw x%02x %s %s %s)' % (ord(SEPS[case['_sep']]), coq_opt(case.get('ft'), coq_bs), ka,
                                                      coq_list([coq_feat(f) for f in case['fts']]))
+    if k == 'disp':
+        return 'out (run_C02_disp %s %s %s %s %s %s)' % (coq_opt(case['fmt'], coq_bs), coq_bs(case['ext']), coq_bs(case['rfmt']),
+                                                         coq_opt(case['_sep'], lambda n: 'x%02x' % ord(SEPS[n])),
+                                                         coq_list([coq_bs(n) for n in case['names']]), coq_list([coq_feat(f) for f in case['fts']]))
     if k == 'xsvr':
         return 'out (run_C02_xsvr x%02x %s %s)' % (ord(SEPS[case['_sep']]), coq_opt(case.get('ft'), coq_bs), coq_bs(case['t']))
     if k == 'edit':
@@ -701,7 +818,7 @@ def _spec_hist(case, got, skip_firstloc):
 def _spec_opt(case, got):
     if isinstance(got, dict):
         return 'raised %s on an input of the domain' % got['e']
-    o0, comments, w = got
+    o0, comments, w, back = got
     lines = []
     for ln in case['t'].split('\n'):
         if ln.startswith('##FASTA'):
@@ -732,6 +849,12 @@ def _spec_opt(case, got):
         return 'header not written after the version line'
     if len([ln for ln in w[len('##gff-version 3\n' + hdr):].split('\n') if ln]) != len(have):
         return 'number of data lines'
+    if all(ln.startswith('#') or not ln.strip() for ln in hdr.split('\n')) and (hdr == '' or hdr.endswith('\n')) and '##FASTA' not in hdr:
+        # a header of comment lines: what is read back has the locations that were written
+        if isinstance(back, dict):
+            return 'written text with a comment header cannot be read: %s' % back['e']
+        if sorted((l[0], l[1], l[2]) for f in back for l in f[2]) != have:
+            return 'locations read back from the text with header differ'
     return None
 
 
@@ -779,6 +902,8 @@ def _spec(case, got, skip_firstloc):
         return spec_xsvw(case, got)
     if case['_k'] == 'xsvr':
         return spec_xsvr(case, got)
+    if case['_k'] == 'disp':
+        return spec_disp(case, got)
     if isinstance(got, dict):
         return 'raised %s on an input of the domain' % got['e']
     o0, w1, o1, w2, w3 = got
@@ -1220,7 +1345,9 @@ def gen_opt(rng):
     if rng.random() < 0.5:
         c['default'] = rng.choice(['dflt', 'gene', 'CDS'])
     if rng.random() < 0.6:
-        c['header'] = rng.choice(['#made by sugar\n', '##sequence-region chr1 1 1000\n#second line\n', ''])
+        c['header'] = rng.choice(['#made by sugar\n', '##sequence-region chr1 1 1000\n#second line\n', '', '#a\n\n  \n#b\n', '#!genome-build x\n',
+                                  # headers that are no comment lines: data to the reader, glued to the first line, or the end of the features
+                                  'chrH\t.\tgene\t1\t9\t.\t+\t.\tID=hdr\n', '#no newline', 'free text\n', '##FASTA\n', 'chrH\t.\tgene\t5\t2\t.\t+\t.\t.\n'])
     return c
 
 
@@ -1528,6 +1655,7 @@ def gen_cases(rng, tier):
     nopt = 120 if tier != 'thorough' else 1500
     nseq = 120 if tier != 'thorough' else 1500
     nxsvr = 120 if tier != 'thorough' else 2000
+    ndisp = 90 if tier != 'thorough' else 1500
     cases = []
     for _ in range(nobj):
         cases.append(gen_obj(rng, in_domain=rng.random() < 0.9))
@@ -1571,6 +1699,8 @@ def gen_cases(rng, tier):
         cases.append(gen_xsvw(rng))
     for _ in range(nxsvr):
         cases.append(gen_xsvr(rng))
+    for _ in range(ndisp):
+        cases.append(gen_disp(rng))
     rng.shuffle(cases)            # heavy and light streams interleaved: the shards of the model evaluation take equally long
     return cases
 
@@ -1584,6 +1714,8 @@ def _case_feats(case, got):
 
 
 def nontrivial(case, got):
+    if case['_k'] == 'disp':
+        return 'disp:%r:%r:%r:%r' % (case['fmt'], case['ext'], case['rfmt'], case['_sep'])
     if isinstance(got, dict):
         return ('xsvr:' + got['e']) if case['_k'] == 'xsvr' else None
     if case['_k'] == 'hist':
@@ -1597,8 +1729,6 @@ def nontrivial(case, got):
                                     'err' if isinstance(got[1], dict) else 'ok')
     if case['_k'] == 'xsvr':
         return 'xsvr:%s:%s:%r' % (case['t'].split('\n')[0], case['_sep'], case.get('ft'))
-    if case['_k'] == 'disp':
-        return 'disp:%r' % (case.get('fmt'),)
     marks = set()
     for meta, gff, locs in got[0]:
         if len(locs) > 1:
@@ -1635,6 +1765,10 @@ def histkey(case, got):
     elif case['_k'] == 'xsv':
         ks.append('xsv-sep=' + case['_sep'])
         ks.append('xsv-ncols=%d' % len(case['keys']))
+    elif case['_k'] == 'disp':
+        ks.append('disp-by=' + ('fmt' if case['fmt'] is not None else 'extension'))
+        if isinstance(got, list):
+            ks.append('disp-read=' + (got[1]['e'] if isinstance(got[1], dict) else str(got[1][0])))
     elif case['_k'] in ('xsvw', 'xsvr'):
         ks.append('xsv-sep=' + case['_sep'])
         r = got[1] if case['_k'] == 'xsvw' and isinstance(got, list) else got
@@ -1731,7 +1865,7 @@ LEVEL_TEXT = ('Machine-checked Coq theorems about an executable Gallina model of
               'attribute column, same-ID merge with per-location difference dicts, copyattrs aliases, writer with per-location lines and '
               'per-line source, LocationTuple ordering, reader options) and of the TSV/CSV bridge at the text level (str.split() of the keys, '
               'tolists for any list of column names, the table text, reading it back cell by cell, the decision table of frompandas, '
-              'ftype). Main theorems: '
+              'ftype) and of the read_fts / write_fts dispatch (fmt in any spelling, extension table regenerated from the plugins). Main theorems: '
               'C02_gff_roundtrip_fix (for every feature list of the domain, write -> read -> write is byte-identical and every feature is '
               'read back with the same type, ordered locations, coordinates, strand and per-location effective attributes), '
               'C02_gff_third_write (also when first locations carry attributes of their own, what is read back lies in that domain, so the '
@@ -1742,7 +1876,7 @@ LEVEL_TEXT = ('Machine-checked Coq theorems about an executable Gallina model of
               'written texts for generated objects, generated and mutated GFF text, edited features, call histories on shared live objects, '
               'reader/writer options, and on the written table text (byte for byte) and the records read back for TSV/CSV files through '
               'the real pandas, including tables written by other programs.')
-LEVEL_NOTE = ('Proved (39 theorems, all closed under the global context): unquote(quote s) = s for every byte string and unquote of any mixed '
+LEVEL_NOTE = ('Proved (47 theorems, all closed under the global context): unquote(quote s) = s for every byte string and unquote of any mixed '
               'raw / upper- / lower-case escape encoding; quoted fields contain no separator; decimal coordinates round-trip (columns 4/5 are '
               'start+1 and stop); key=value items (also padded with blanks) and the whole attribute column round-trip with order and list '
               'values; one line <-> (type, seqid, source, score, phase, strand, location, attributes) for every combination of present / '
@@ -1764,13 +1898,22 @@ LEVEL_NOTE = ('Proved (39 theorems, all closed under the global context): unquot
               '+ - . ?, coordinates from the start / stop columns or stop = start + len, start = stop - len). The real code differs from the '
               'model in one corner that is kept out of the correspondence domain: a table whose only columns are len yields no records and '
               'no error, because pandas drops the rows of a frame without columns. '
+              'Reader / writer options (round 7): C02_read_filt_fast and C02_read_filt (reading with filt_fast= / filt= is reading the file '
+              'without the lines that do not contain the text / the data lines of other types, default_ftype standing in for "."; unbounded, '
+              'no hypotheses), C02_read_filt_empty, C02_read_comments (comments= receives exactly the comment and blank lines before ##FASTA '
+              'that filt_fast lets through, in file order), C02_header_ignored (a header= text of comment / blank lines does not change what '
+              'is read back; headers that are data lines, lack the final newline or are ##FASTA are modelled and compared, not claimed). '
+              'Dispatch (round 7): C02_fmt_case_insensitive, C02_dispatch_names (over the regenerated registry fts_exts: gff / tsv / csv are '
+              'found by name and by their own extension, fmt wins over the extension, an extension in another spelling is an OSError), '
+              'C02_dispatch_xsv_roundtrip (C02_xsv_total through write_fts / read_fts with fmt in any spelling and the default separator). '
               'Refuted with a witness and excluded from the round-trip theorem\'s domain (rt_C02), but generated and checked by the oracle: '
               'features whose first 5\'->3\' location has attributes of its own (C02_firstloc_overrides_refuted; open finding F39, reported as '
               'KNOWN-FINDING only when it is the sole failure of a case and model and code agree); neighbouring features with one '
               '(ID, type, seqid) are one feature to the reader (C02_adjacent_same_id_refuted). Per-line source (F38) is inside the domain: '
-              'C02_loc_source_kept. Only tested, not proved: split features without ID (the writer invents distinct IDs); filt / filt_fast / '
-              'default_ftype / comments / header options; file order of the lines of a split feature (beyond the ordering theorems); '
-              'state independence (histories); dispatch read_fts/write_fts; everything pandas does beyond the unquoted cell grid (quoting of '
+              'C02_loc_source_kept. Only tested, not proved: split features without ID (the writer invents distinct IDs); default_ftype beyond its '
+              'role in filt; file order of the lines of a split feature (beyond the ordering theorems); '
+              'state independence (histories); transports (file names, handles), format detection by content (C03 has the theorems) and '
+              'meta._fmt; everything pandas does beyond the unquoted cell grid (quoting of '
               'cells that contain the separator / quotes / line breaks - sugar has no code of its own for it -, dtype inference, NA words: '
               'such cells are outside the model\'s domain flag). '
               'Statement coverage of the modelled functions in the quick tier: 100 % except sugar/_io/tab/xsv.py lines 86-87 and 95-96 '
